@@ -15,6 +15,7 @@ import numpy as np
 
 from ..poly import z3mod
 from ..tv import Compiled, hold_terms, project_block
+from ..oracle import cons_eval
 from .. import detgen
 from ..towers import tower_theorem, all_betas
 from ..smt import HarnessError, fval
@@ -117,6 +118,10 @@ def run_model(spec, ses):
                     finding(ses, 'C07:%s:block%d' % (name, bi),
                             'model %s: a point satisfying the user constraints is cut off by the compiled program'
                             % name, data, 'rsv.props.c07:replay')
+                elif cp.xmat:
+                    # cone-term abstraction: the abstract model need not be a real point (see the numeric search below)
+                    ses.stats.undecided += 1
+                    ses.stats.notes.append('undecided: %s (abstract projection counterexample without a real witness)' % label)
                 else:
                     raise HarnessError('projection counterexample does not reproduce: %s' % label)
         bc = cp.bound_cons(vs, iface_cols)
@@ -137,8 +142,22 @@ def run_model(spec, ses):
             ses.stats.notes.append('%s: solve failed %s' % (name, str(e)[:60]))
     sign = cm.o.obj[0]
     if cp.xmat:
-        # exponential cones: phi is uninterpreted, so optimum statements are meaningless in the abstraction;
-        # only the (stretch) projection obligations above are claimed for these atoms
+        # exponential cones: phi is uninterpreted, so optimum statements are meaningless in the abstraction.  A real
+        # witness against exactness is searched numerically instead (true functions): a point that satisfies the user's
+        # constraints with a better objective than the value the real solver reports; it is pinned into the real
+        # compiled program by replay() before it is reported.
+        if reported is not None:
+            ses.stats.obligations += 1
+            ses.stats.kinds['numeric-better-point'] = ses.stats.kinds.get('numeric-better-point', 0) + 1
+            pt = numeric_better_point(cm, reported * sign)
+            if pt is not None:
+                data = dict(spec=spec, point={k: str(Fraction(v)) for k, v in pt.items()}, reported=reported, numeric=True)
+                if replay(dict(data, reported_check=False)):
+                    finding(ses, 'C07:%s:conservative' % name,
+                            'model %s: a point satisfying the user constraints (true exp/log) with objective %.6g is cut off by '
+                            'the compiled program; reported optimum %r' % (name, pt.get('t'), reported), data, 'rsv.props.c07:replay')
+                    return
+            ses.stats.discharged += 1
         return
     if not cp.qmat and not cp.pcones and not Sdefs:
         P = cp.constraints(vs)
@@ -261,6 +280,42 @@ def run_milp(case, ses):
             ses.stats.samples.append(dict(model=name, exact=str(vo), status=so, reported=reported))
 
 
+def numeric_better_point(cm, tval):
+    """SLSQP over the interface variables: minimise the epigraph variable subject to the user's constraints evaluated
+    with the true functions; returns a point strictly better than tval (by 1e-4 relative) or None."""
+    import scipy.optimize as opt
+    names = [n for n in cm.iface if n != 't'] + ['t']
+    rows = cm.rows()
+    x0 = None
+    try:
+        sol = cm.r.m.solution
+        x0 = np.array([float(sol.x[cm.iface[n]]) for n in names])
+    except Exception:
+        x0 = np.zeros(len(names))
+
+    def viol(x, r):
+        return -cons_eval(r['cons'], dict(zip(names, x))) - 1e-8
+    cons = [dict(type='ineq', fun=(lambda x, r=r: viol(x, r))) for r in rows]
+    best = None
+    rnd = np.random.RandomState(3)
+    for k in range(6):
+        start = x0 + (0 if k == 0 else rnd.uniform(-0.3, 0.3, size=len(names)))
+        try:
+            r_ = opt.minimize(lambda x: x[-1], start, constraints=cons, method='SLSQP', options=dict(maxiter=200))
+        except Exception:
+            continue
+        x = r_.x
+        if not np.all(np.isfinite(x)):
+            continue
+        if max(cons_eval(r['cons'], dict(zip(names, x))) for r in rows) > 1e-8:
+            continue
+        if x[-1] < tval - 1e-4 * (1 + abs(tval)) and (best is None or x[-1] < best[-1]):
+            best = x
+    if best is None:
+        return None
+    return dict(zip(names, [float(v) for v in best]))
+
+
 def replay(data, verbose=False):
     import scipy.optimize as opt
     if 'milp' in data:
@@ -282,21 +337,48 @@ def replay(data, verbose=False):
     f = cm.formula
     if 'point' in data:
         pt = {k: float(Fraction(v)) for k, v in data['point'].items()}
-        lb = np.array(f.lb, dtype=float).copy()
-        ub = np.array(f.ub, dtype=float).copy()
-        for n, c in cm.iface.items():
-            if n in pt:
-                lb[c] = max(lb[c], pt[n] - 1e-8)
-                ub[c] = min(ub[c], pt[n] + 1e-8)
-        with quiet():
-            from rsome.gcp import GCProg
-            from rsome import eco_solver
-            g = GCProg(f.linear, f.const, f.sense, f.vtype, ub, lb, f.qmat, [], [], f.obj)
-            if f.qmat:
-                sol = eco_solver.solve(g, display=False)
-            else:
-                from rsome.lp import def_sol
-                sol = def_sol(g, display=False)
+        if data.get('numeric'):
+            # found numerically: the point must satisfy the user's constraints (true functions) before anything else
+            worst = max(cons_eval(r['cons'], pt) for r in cm.rows())
+            if verbose:
+                print('largest violation of the user constraints at the point: %.3g' % worst)
+            if worst > 1e-7:
+                return False
+        from rsome.gcp import GCProg
+        from rsome import eco_solver
+        xm = list(getattr(f, 'xmat', []) or [])
+
+        def pinned(width, pin_t):
+            lb = np.array(f.lb, dtype=float).copy()
+            ub = np.array(f.ub, dtype=float).copy()
+            for n, c in cm.iface.items():
+                if n in pt and (pin_t or n != 't'):
+                    lb[c] = max(lb[c], pt[n] - width)
+                    ub[c] = min(ub[c], pt[n] + width)
+            with quiet():
+                g = GCProg(f.linear, f.const, f.sense, f.vtype, ub, lb, f.qmat, xm, [], f.obj)
+                try:
+                    if f.qmat or xm:
+                        return eco_solver.solve(g, display=False)
+                    from rsome.lp import def_sol
+                    return def_sol(g, display=False)
+                except Exception:
+                    return None
+        if data.get('numeric'):
+            # decisions pinned, epigraph variable free: the real compiled program must reach (about) the same objective
+            for width in (1e-7, 1e-4):
+                sol = pinned(width, False)
+                if sol is not None and sol.x is not None:
+                    tmin = float(sol.x[0])
+                    if verbose:
+                        print('decisions pinned (+-%g): the real compiled program gives t >= %.8g, the user model allows %.8g'
+                              % (width, tmin, pt['t']))
+                    if tmin <= pt['t'] + 1e-5 * (1 + abs(pt['t'])):
+                        return False
+                elif verbose:
+                    print('decisions pinned (+-%g): the real compiled program is infeasible' % width)
+            return True
+        sol = pinned(1e-8, True)
         infeasible = sol is None or sol.x is None
         if verbose:
             print('user-feasible point %s pinned into the real compiled program: %s'
